@@ -400,3 +400,11 @@ def store_none(d, k, x):
 
 def neg_div(x):
     return (x // -3, x % -3, x // 4, x % 4)
+
+
+def glue(a, b, x):
+    return (*a, x, *b)
+
+
+def first_of(t):
+    return next(iter(t))
